@@ -280,6 +280,48 @@ class Tr:
     has_raise = False
 
 
+class TrR:
+    """real-valued expressions of similarity.py -> Coq R"""
+
+    def __init__(self, subst):
+        self.subst = subst
+
+    def e(self, n):
+        key = ast.unparse(n)
+        if key in self.subst:
+            return self.subst[key]
+        if isinstance(n, ast.Constant) and isinstance(n.value, int) and not isinstance(n.value, bool):
+            return "(IZR %d)" % n.value if n.value >= 0 else "(IZR (%d))" % n.value
+        if isinstance(n, ast.Name):
+            return n.id
+        if isinstance(n, ast.UnaryOp) and isinstance(n.op, ast.USub):
+            return "(- %s)" % self.e(n.operand)
+        if isinstance(n, ast.BinOp):
+            ops = {ast.Add: "+", ast.Sub: "-", ast.Mult: "*", ast.Div: "/"}
+            if type(n.op) in ops:
+                return "(%s %s %s)" % (self.e(n.left), ops[type(n.op)], self.e(n.right))
+            if isinstance(n.op, ast.Pow) and isinstance(n.right, ast.Constant) and n.right.value == 2:
+                x = self.e(n.left)
+                return "(%s * %s)" % (x, x)
+            raise TranslateError("real binop in %s" % key)
+        if isinstance(n, ast.Call) and isinstance(n.func, ast.Attribute) and ast.unparse(n.func.value) == "np":
+            f = n.func.attr
+            args = n.args
+            if f == "exp" and len(args) == 1:
+                return "(exp %s)" % self.e(args[0])
+            if f == "log" and len(args) == 1:
+                return "(ln %s)" % self.e(args[0])
+            if f == "sqrt" and len(args) == 1:
+                return "(sqrt %s)" % self.e(args[0])
+            if f == "power" and len(args) == 2:
+                if isinstance(args[1], ast.Constant) and args[1].value == 2:
+                    x = self.e(args[0])
+                    return "(%s * %s)" % (x, x)
+                return "(Rpower %s %s)" % (self.e(args[0]), self.e(args[1]))
+            raise TranslateError("numpy call %s" % key)
+        raise TranslateError("real expression %s (%s)" % (key, type(n).__name__))
+
+
 def find_function(tree, qual):
     parts = qual.split(".")
     body = tree.body
@@ -328,6 +370,13 @@ def translate(spec, repo=REPO):
                 buf.append("(* %s :: %s :: assignment #%d to `%s`  =  %s *)" % (
                     item["file"], item["function"], item.get("nth", 0), item["var"], ast.unparse(rhs)))
                 buf.append("Definition %s %s : %s :=\n  %s.\n" % (item["name"], params, item.get("sort", "Z"), body))
+            elif item["mode"] == "exprR":
+                rhs = nth_assignment(fn, item["var"], item.get("nth", 0))
+                body = TrR(item.get("subst", {})).e(rhs)
+                params = " ".join("(%s : R)" % p for p in item["params"])
+                buf.append("(* %s :: %s :: assignment #%d to `%s`  =  %s *)" % (
+                    item["file"], item["function"], item.get("nth", 0), item["var"], ast.unparse(rhs)))
+                buf.append("Definition %s %s : R :=\n  %s.\n" % (item["name"], params, body))
             elif item["mode"] == "func":
                 tr.has_raise = any(isinstance(n, ast.Raise) for n in ast.walk(fn))
                 pyparams = [a.arg for a in fn.args.args]
@@ -345,7 +394,9 @@ def translate(spec, repo=REPO):
     header = ("(* GENERATED by tools/translate_py.py from /repo's working tree -- do not edit *)\n"
               "From Coq Require Import ZArith Bool List.\nFrom DV Require Import Prelude.\n"
               "Import ListNotations.\nOpen Scope Z_scope.\nOpen Scope bool_scope.\n\n")
-    return {k: header + "\n".join(v) for k, v in outs.items()}
+    header_r = ("(* GENERATED by tools/translate_py.py from /repo's working tree -- do not edit *)\n"
+                "From Coq Require Import Reals.\nOpen Scope R_scope.\n\n")
+    return {k: (header_r if k == "Gen_sim.v" else header) + "\n".join(v) for k, v in outs.items()}
 
 
 BAND = [("r", "Z"), ("c", "Z"), ("w", "Z"), ("i", "Z")]
@@ -417,6 +468,21 @@ SPEC = [
              "len(s)": "nb_series",
              "distance(s[r], s[c], **settings.kwargs())": "(dist r c)",
          }),
+    # ---- similarity.py: the closed-form transforms (explicit parameters)
+    dict(out="Gen_sim.v", mode="exprR", file="src/dtaidistance/similarity.py", function="distance_to_similarity",
+         var="S", nth=0, name="sim_exponential", params=["D", "r"]),
+    dict(out="Gen_sim.v", mode="exprR", file="src/dtaidistance/similarity.py", function="distance_to_similarity",
+         var="S", nth=1, name="sim_gaussian", params=["D", "r"]),
+    dict(out="Gen_sim.v", mode="exprR", file="src/dtaidistance/similarity.py", function="distance_to_similarity",
+         var="S", nth=2, name="sim_reciprocal", params=["D", "r", "a"]),
+    dict(out="Gen_sim.v", mode="exprR", file="src/dtaidistance/similarity.py", function="distance_to_similarity",
+         var="S", nth=3, name="sim_reverse", params=["D", "r"]),
+    dict(out="Gen_sim.v", mode="exprR", file="src/dtaidistance/similarity.py", function="squash",
+         var="result", nth=1, name="squash_gaussian", params=["X", "r", "x0"]),
+    dict(out="Gen_sim.v", mode="exprR", file="src/dtaidistance/similarity.py", function="squash",
+         var="result", nth=3, name="squash_exponential", params=["X", "r", "x0"]),
+    dict(out="Gen_sim.v", mode="exprR", file="src/dtaidistance/similarity.py", function="squash",
+         var="result", nth=5, name="squash_logistic", params=["X", "r", "x0"]),
 ]
 
 
